@@ -11,6 +11,8 @@ API = D.API
 VALID, INVALID, EITHER = "valid", "invalid", "either"
 
 COSTS = [(1, 1, 2, 2), (2, 1, 1, 5), (1, 3, 0, 0), (0.5, 1, 1.5, 0.25)]
+RATIO_COSTS = [(1, 1, 500, 500), (1, 1, 8000, 8000), (1, 1, 14365, 0),
+               (0.001, 0.002, 8.0, 8.0)]
 STORAGES = ["RAM", "DISK", "WORK", "NONE"]
 
 
@@ -90,6 +92,15 @@ def tuples(N):
             for st in ("RAM", "DISK"):
                 out.append(D.Config("Mixed", (big, st), n))
                 out.append(D.Config("TwoLevel", (3, big, st, "maximum"), n, 2))
+    # disk much more expensive than a step ((wd+rd)/uf in the thousands and
+    # beyond: the period search of PeriodicDiskRevolve then walks far out in
+    # the binomial table -- 171! is where float factorials end)
+    for n in (1, 2, 5, 9):
+        for ram in (1, 2):
+            for cv in RATIO_COSTS:
+                for c in ("DiskRevolve", "PeriodicDiskRevolve"):
+                    out.append(D.Config(c, (ram,) + cv, n))
+                out.append(D.Config("HRevolve", (ram, 1) + cv, n))
     for n in range(1, N + 1):
         for c in ("SingleMemory", "SingleDiskCopy", "SingleDiskMove",
                   "NoneSchedule"):
